@@ -477,3 +477,50 @@ def gen_schema(rng, **opts):
     g = SchemaGen(rng, **opts)
     js = g.schema()
     return js, g.features
+
+
+def errorize(js, rng, p=0.6):
+    """The same schema with some records declared with the kind "error" (the record-like
+    kind of protocol declarations; encoded and named exactly like a record).  Records that
+    are union branches (in place or by reference) are left alone: whether an "error" branch
+    takes part in the most-matching-fields rule of C09 is not something the statements fix
+    (fastavro treats it as a non-record branch: first match wins)."""
+    js = copy.deepcopy(js)
+    in_unions = set()
+
+    def scan(n, ns):
+        if isinstance(n, list):
+            for b in n:
+                if isinstance(b, str):
+                    in_unions.add(b.rsplit(".", 1)[-1])
+                elif isinstance(b, dict) and "name" in b:
+                    in_unions.add(b["name"].rsplit(".", 1)[-1])
+                scan(b, ns)
+        elif isinstance(n, dict):
+            for k in ("items", "values"):
+                if k in n:
+                    scan(n[k], ns)
+            for f in n.get("fields", []) if isinstance(n.get("fields"), list) else []:
+                scan(f["type"], ns)
+            if isinstance(n.get("type"), (dict, list)):
+                scan(n["type"], ns)
+
+    scan(js, "")
+
+    def walk(n):
+        if isinstance(n, list):
+            return [walk(b) for b in n]
+        if isinstance(n, dict):
+            out = dict(n)
+            t = n.get("type")
+            if t == "record":
+                if rng.random() < p and n["name"].rsplit(".", 1)[-1] not in in_unions:
+                    out["type"] = "error"
+                out["fields"] = [dict(f, type=walk(f["type"])) for f in n["fields"]]
+            elif t == "array":
+                out["items"] = walk(n["items"])
+            elif t == "map":
+                out["values"] = walk(n["values"])
+            return out
+        return n
+    return walk(js)
